@@ -282,7 +282,7 @@ structure Proxy where
   dest : Nat
   path : String
   ifaces : List Iface
-  deriving Repr
+  deriving DecidableEq, Repr
 
 /-- What the application asks a client to do. -/
 inductive CallReq (V : Type) where
